@@ -75,10 +75,19 @@ def fa_to_ref(sh, fa, rng, case, recs):
     meta = rng.choice([None, {"user": "méta"}, {"a": "1", "b": "2"},
                        # a dict carried over from another file's reader.metadata holds the reserved keys
                        {"avro.codec": rng.choice(CODECS), "origin": "copied"}, {"avro.codec": "null", "avro.schema": '"long"', "k": "v"}])
-    cfg = {"codec": codec, "interval": interval, "meta": meta, "marker": marker}
+    # the schema as the caller has it: raw JSON, or the result of parse_schema (the header must be
+    # the same self-contained schema JSON either way)
+    as_parsed = rng.random() < 0.4
+    cfg = {"codec": codec, "interval": interval, "meta": meta, "marker": marker, "parsed": as_parsed}
     info = {"dir": "fa->ref", "schema": js, "records": recs, "cfg": cfg}
     sh.case(h64("a", schema_shape(js), min(len(recs), 4), codec, interval), True)
     fo = io.BytesIO()
+
+    def schema_arg():
+        return fa.parse_schema(copy.deepcopy(js)) if as_parsed else copy.deepcopy(js)
+
+    if as_parsed:
+        sh.count("fa_files_from_parsed_schema")
     split = rng.randint(0, len(recs)) if rng.random() < 0.25 else None
     first = list(recs) if split is None else list(recs[:split])
     if split is None and recs and rng.random() < 0.12:
@@ -89,7 +98,7 @@ def fa_to_ref(sh, fa, rng, case, recs):
             donor = io.BytesIO()
             fa.writer(donor, copy.deepcopy(js), list(recs), codec=rng.choice(CODECS), sync_interval=rng.choice([0, 30, 16000]))
             donor.seek(0)
-            w = Writer(fo, copy.deepcopy(js), codec=codec, sync_interval=interval, metadata=dict(meta) if meta else None, sync_marker=marker)
+            w = Writer(fo, schema_arg(), codec=codec, sync_interval=interval, metadata=dict(meta) if meta else None, sync_marker=marker)
             for k, block in enumerate(fa.block_reader(donor)):
                 if k % 2 == 0:
                     it = iter(block)
@@ -102,7 +111,7 @@ def fa_to_ref(sh, fa, rng, case, recs):
         st, err = guard(copy_blocks)
         sh.count("fa_files_block_copied")
     else:
-        st, err = guard(fa.writer, fo, copy.deepcopy(js), first, codec=codec, sync_interval=interval,
+        st, err = guard(fa.writer, fo, schema_arg(), first, codec=codec, sync_interval=interval,
                         metadata=dict(meta) if meta else None, sync_marker=marker,
                         codec_compression_level=rng.choice([None, 1, 9]) if codec == "deflate" else None)
     if st == "exc":
@@ -114,7 +123,7 @@ def fa_to_ref(sh, fa, rng, case, recs):
         kw = rng.choice([{}, {"codec": rng.choice(CODECS)}, {"codec": codec, "sync_interval": 1},
                          {"sync_marker": b"0123456789abcdef"}, {"metadata": {"avro.codec": rng.choice(CODECS), "late": "x"}}])
         cfg["append"] = {"at": split, "kw": kw}
-        st, err = guard(fa.writer, fo, copy.deepcopy(js), list(recs[split:]), **kw)
+        st, err = guard(fa.writer, fo, schema_arg(), list(recs[split:]), **kw)
         if st == "exc":
             sh.violation("writer-raised", "appending to the file just written: %s" % exc_name(err), info)
             return
